@@ -67,6 +67,7 @@ Definition hlp_float64 (fl : res (Z * bool)) (cbor : bool) (decInteger : res (Z 
   if ok then Ok f
   else do (ui, neg, iok) <- decInteger ;;
        if negb iok then Err EBadDesc
+       else if negb neg then Ok (f64_of_int ui)   (* unsigned: float64(ui) directly *)
        else do i <- decNegintPosintFloatNumberHelperInt64v ui neg cbor ;; Ok (f64_of_int i).
 
 (* ---- a driver: the four scalar decoders, on descriptor byte + following bytes ---- *)
